@@ -26,7 +26,9 @@ def positions(spec, cn, rng, n_extra=4):
     G = g + N * d0
     nlev = len(spec["levels"])
     out = [("default", None), ("domain-lo", g), ("domain-hi", G), ("inside-lo", g + d0 / 16), ("inside-hi", G - d0 / 16),
-           ("outside-lo", g - d0), ("outside-hi", G + d0 / 4)]
+           ("outside-lo", g - d0), ("outside-hi", G + d0 / 4),
+           # outside by one unit in the last place, and by a relative 1e-7 (inside any "rounding tolerance", outside the domain)
+           ("just-outside-lo", float(np.nextafter(g, -np.inf))), ("just-outside-hi", G + max(abs(G), d0) * 1e-7)]
     for lv in range(nlev):
         d = d0 / 2 ** lv
         faces = sorted({b[0][cn] for b in spec["levels"][lv]} | {b[1][cn] + 1 for b in spec["levels"][lv]})
@@ -392,8 +394,8 @@ def run(ctx, rep, model=True):
         for cn in range(3):
             plist = positions(spec, cn, ctx.rng)
             if ctx.quick and len(plist) > 26:
-                head = plist[:8]
-                rest = plist[8:]
+                head = plist[:10]
+                rest = plist[10:]
                 ctx.rng.shuffle(rest)
                 plist = head + rest[:19]
             for j, (nm, pos) in enumerate(plist):
